@@ -260,3 +260,105 @@ var twoProp = ev.Register(&ev.Prop[TwoCase]{
 })
 
 func TestC14SeveralConnections(t *testing.T) { twoProp.Check(t, 150, 5000) }
+
+// ---------------------------------------------------------------------------
+// The application does not read ErrorReports() (it is optional): connections that end with
+// undecodable input each produce a report nobody takes. They must terminate all the same -
+// channel closed, every goroutine started on their behalf gone.
+
+type NRCase struct {
+	Conns int `json:"conns"` // 2..6 connections on ONE ServeMux whose ErrorReports are never read
+	Late  int `json:"late"`  // CloseNotify requests after termination, per connection
+}
+
+func runNoReader(c NRCase) *ev.Failure {
+	if pre := leaked(2 * time.Second); pre != "" {
+		return ev.Failf("harness-leak-before", "a library goroutine from an earlier case is still alive:\n%s", pre)
+	}
+	mux := diam.NewServeMux()
+	var mu sync.Mutex
+	chans := map[string]<-chan struct{}{}
+	mux.HandleFunc("ALL", func(cn diam.Conn, m *diam.Message) {
+		ch := cn.(diam.CloseNotifier).CloseNotify()
+		mu.Lock()
+		chans[cn.RemoteAddr().String()] = ch
+		mu.Unlock()
+	})
+	var conns []*memnet.Conn
+	var dconns []diam.Conn
+	defer func() {
+		for _, mc := range conns {
+			mc.Close()
+		}
+		// empty the report channel so that nothing of this case lingers in it
+		for {
+			select {
+			case <-mux.ErrorReports():
+				continue
+			default:
+			}
+			break
+		}
+	}()
+	for i := 0; i < c.Conns; i++ {
+		mc := memnet.NewConn()
+		mc.Remote = memnet.Addr{Net: "tcp", Str: fmt.Sprintf("10.9.4.%d:40000", i+1)}
+		conns = append(conns, mc)
+		dc, err := diam.NewConn(mc, "", mux, dict.Default)
+		if err != nil {
+			return ev.Failf("harness-conn", "%v", err)
+		}
+		dconns = append(dconns, dc)
+		mc.Feed(tagged(i, 0, 8, false))
+	}
+	for i, mc := range conns {
+		deadline := time.Now().Add(promptly)
+		for {
+			mu.Lock()
+			_, ok := chans[mc.Remote.String()]
+			mu.Unlock()
+			if ok {
+				break
+			}
+			if time.Now().After(deadline) {
+				return ev.Failf("message-not-dispatched", "connection %d: its first message did not reach the handler within %v", i, promptly)
+			}
+			time.Sleep(time.Millisecond)
+		}
+		mc.WaitParked(promptly)
+	}
+	for i, mc := range conns {
+		junk := append(refcodec.EncodeHeader(refcodec.Header{Version: 1, Flags: 0x80, Code: 0xABCDEF, App: 77, Length: 60}), make([]byte, 100)...)
+		mc.Feed(junk)
+		if !mc.WaitClosed(promptly) {
+			return ev.Failf("transport-not-closed", "connection %d: not closed within %v of undecodable input (nobody reads the mux's ErrorReports; %d connections ended before it)", i, promptly, i)
+		}
+		mu.Lock()
+		ch := chans[mc.Remote.String()]
+		mu.Unlock()
+		if !closedWithin(ch, promptly) {
+			return ev.Failf("never-fired", "connection %d: its CloseNotify channel was not closed within %v of undecodable input (nobody reads the mux's ErrorReports)", i, promptly)
+		}
+		for k := 0; k < c.Late; k++ {
+			if !closedWithin(dconns[i].(diam.CloseNotifier).CloseNotify(), promptly) {
+				return ev.Failf("late-request-never-fired", "connection %d: a CloseNotify channel requested after termination was not closed", i)
+			}
+		}
+	}
+	if g := leaked(promptly); g != "" {
+		return ev.Failf("goroutine-leak", "%d connections on one ServeMux ended with undecodable input while nobody read ErrorReports(); a goroutine started by the library is still alive after %v:\n%s", c.Conns, promptly, g)
+	}
+	return nil
+}
+
+var noReaderProp = ev.Register(&ev.Prop[NRCase]{
+	ID: "C14", Name: "reports-not-read",
+	Rule: "2..6 connections on ONE ServeMux whose ErrorReports() channel nobody reads; each handler requests CloseNotify, then each connection receives an undecodable message; every transport must be closed, every channel closed (also for 0..2 later requests), and no goroutine started by the library may remain; every case non-trivial",
+	Gen: func(t *rapid.T) NRCase {
+		return NRCase{Conns: rapid.IntRange(2, 6).Draw(t, "conns"), Late: rapid.IntRange(0, 2).Draw(t, "late")}
+	},
+	Run:      runNoReader,
+	Classify: func(c NRCase) (bool, []string) { return true, nil },
+})
+
+func TestC14ReportsNotRead(t *testing.T) { noReaderProp.Check(t, 15, 300) }
